@@ -188,6 +188,25 @@ class Setters(History):
                          'Domain(length=%d, dr=%r): max rel. diff %.3g' % (name, n, state['dr'],
                                                                           float(np.max(np.abs(got - want))) / scale if got.shape == want.shape else float('nan')))
                 return
+        # the whole-MatrixArray versions as well (they may keep their own view of the grid): same Domain object, compared with a
+        # fresh Domain, in the direction that alternates with the history
+        for direction in (('fourier', 'real') if which % 2 == 0 else ('real', 'fourier')):
+            src = P.Space.Real if direction == 'fourier' else P.Space.Fourier
+            data = np.empty((n, 2, 2))
+            data[:, 0, 0], data[:, 0, 1], data[:, 1, 0], data[:, 1, 1] = f, 0.5 * f, 0.5 * f, -f
+            ma, mb = P.MatrixArray(length=n, rank=2, data=data.copy(), space=src), P.MatrixArray(length=n, rank=2, data=data.copy(), space=src)
+            try:
+                getattr(state['dom'], 'MatrixArray_to_' + direction)(ma)
+            except Exception as exc:   # noqa
+                out.fail(sig + 'transform-after-setter-raises', 'MatrixArray_to_%s raised %s: %s after setters (model length=%d dr=%r)' % (
+                    direction, type(exc).__name__, exc, n, state['dr']))
+                return
+            getattr(fresh, 'MatrixArray_to_' + direction)(mb)
+            scale = float(np.max(np.abs(mb.data))) + 1e-300
+            if ma.data.shape != mb.data.shape or not np.all(np.abs(ma.data - mb.data) <= 1e-10 * scale):
+                out.fail(sig + 'transform-differs-from-fresh-domain', 'MatrixArray_to_%s on a Domain configured through setters differs from the same transform on a '
+                         'fresh Domain(length=%d, dr=%r): max rel. diff %.3g' % (direction, n, state['dr'], float(np.max(np.abs(ma.data - mb.data))) / scale))
+                return
 
     def init(self, params, out):
         dom = build.domain(params)
